@@ -220,6 +220,56 @@ def fetchChunk (st : NodeState) (id : Bytes) (rk : Bytes) : Outcome (Option Byte
             (pick C11.fetchNonceRole [("record", record.nonce)] []) rk)
     else .value (some record.data)
 
+/-! ### manifests that arrive without the chunk: ingest_manifest, the accepting branch of handle_announce -/
+
+/-- `Node::manifest_keeps_held_chunk_readable` (fixes/C11-ingest-must-not-poison-held-chunk.patch): a node that holds
+    the (encrypted) chunk lets a replica-less manifest take the place of what it knows only if the manifest stands for
+    the same content hash as the cached one and for the same key as the shares `fetch_chunk` reads the chunk with. -/
+def keepsHeldChunkReadable (st : NodeState) (m : Manifest) : Bool :=
+  match find st.chunks m.chunkId with
+  | none => true
+  | some record =>
+    if !record.encrypted then true
+    else
+      (match find st.manifests m.chunkId with
+       | some cached => cached.chunkHash == m.chunkHash
+       | none => true) &&
+      (match shardSource st m.chunkId with
+       | none => true
+       | some (shards, threshold) =>
+         match Shamir.combine shards threshold, Shamir.combine m.shards m.threshold with
+         | .ok k, .ok k' => k == k'
+         | _, _ => false)
+
+/-- "held-key" = the source has the guard, anything else = it does not (the tree before the repair) -/
+def guardPasses (role : String) (st : NodeState) (m : Manifest) : Bool :=
+  if role == "held-key" then keepsHeldChunkReadable st m else true
+
+/-- manifest cache and key-share table take the manifest -/
+def adoptManifest (st : NodeState) (m : Manifest) (ttl : Int) : NodeState :=
+  let shardRecord : ShardRecord := { shards := m.shards, threshold := m.threshold, totalShares := m.totalShares, ttl := ttl }
+  { st with manifests := upsert st.manifests m.chunkId m, shardTable := upsert st.shardTable m.chunkId shardRecord }
+
+/-- `Node::ingest_manifest(uri)`; `decoded` = result of `decode_manifest` -/
+def ingestManifest (cfg : Config) (st : NodeState) (wallNowNs : Int) (decoded : Option Manifest) : NodeState × Bool :=
+  match decoded with
+  | none => (st, false)
+  | some m =>
+    if ¬ (m.threshold > 0 ∧ m.shards.length ≥ m.threshold) then (st, false)
+    else
+      match manifestTtl m.expiresNs wallNowNs cfg.minTtl cfg.maxTtl with
+      | none => (st, false)
+      | some ttl => if guardPasses C11.ingestGuard st m then (adoptManifest st m ttl, true) else (st, false)
+
+/-- the manifest part of a `handle_announce` that passed the admission chain (sender, PoW, throttle, decode, id match,
+    shards, TTL, assigned shards: C21) -/
+def announceAdmitted (cfg : Config) (st : NodeState) (wallNowNs : Int) (m : Manifest) : NodeState :=
+  if ¬ (m.threshold > 0 ∧ m.shards.length ≥ m.threshold) then st
+  else
+    match manifestTtl m.expiresNs wallNowNs cfg.minTtl cfg.maxTtl with
+    | none => st
+    | some ttl => if guardPasses C11.announceGuard st m then adoptManifest st m ttl else st
+
 /-! ### receive_chunk -/
 
 inductive Recv where
